@@ -21,6 +21,7 @@ from concurrent.futures import ThreadPoolExecutor
 
 import common
 import p_c17
+import p_c06
 from common import MachineryError
 
 LEVEL = "model_checking"
@@ -123,6 +124,8 @@ def run(tier, rep):
                       {"point": pt, "route": tr["route"], "savept": tr["savept"], "why": why, "event": k})
     # persistence audit over the descriptor table (shared with C17)
     p_c17.audit(rep, sc, lf)
+    # the default route Simulation(filename) / sa[-1] on an archive longer than the reader's initial index (1024 snapshots)
+    p_c06.long_archive(rep, sc)
     import p_c05_audit
     p_c05_audit.run(rep, sc, lf, quick)
     rep.add(distinct_nontrivial=len(kinds),
